@@ -32,9 +32,13 @@
   * `read_fru_exact`, `read_fru_*`, `op_read_fru_data_*`, `read_fru_range_multi_safe`,
     `read_fru_area_multi_safe`   FRU size back-off (∀ areas, sizes, offsets); the area reader
   * `sel_entry_exact`, `sel_entry_multi_safe`, `sel_entry_fault_safe`   get_sel_entry: FFh → 16 → 15 …
-                             on CAh; any fault set with at most 16 answers CAh
+                             on CAh; ANY fault set where max_req_len has its floor (the source as it is
+                             now, Props.C13.source_variant: the 17th CAh is RetryError; `SelFaults`), at most
+                             16 answers CAh where it has none (the pinned source)
   * `listing_multi_safe`, `sel_entries_multi_safe`, `sdr_entries_multi_safe`   the listing loops
-  * `get_and_clear_multi_safe`, `get_and_clear_fault_safe`   restart on C5h; any finite fault set
+  * `get_and_clear_multi_safe`, `get_and_clear_fault_safe`   restart on C5h; ANY fault set where the loop
+                             has its retry budget (exhausted = RetryError; `GacFaults`), any finite one with
+                             enough fuel where it is `while True`
   * `sdr_data_loop_multi_safe`, `sdr_data_multi_safe`, `sdr_record_multi_safe`,
     `sdr_record_fault_safe`  get_sdr_data_helper (20 → 16 → … on CAh) over get_sdr_chunk_helper
   * `primitive_carries_code` send_message / raw_command hand the code to the caller
@@ -398,14 +402,16 @@ theorem sel_entry_exact {β : Type} (cfg : SelCfg) (mk : Nat → Nat → Req) (n
     outcome (selEntry cfg mk nextOf pay fin fuel maxReq acc) (pureDev base) n = fin rec nx :=
   selEntry_exact cfg mk nextOf pay fin base rec nx hw hdev fuel maxReq acc n h1 hacc hlt hf
 
-/-- get_sel_entry under any fault set with at most `full` (16) answers CAh: the error carries
-an injected code, or the entry is the stored one.  (The 17th CAh brings the pinned code to
-zero-length reads, on which it spins: a liveness matter outside this property.) -/
+/-- get_sel_entry under ANY fault set where max_req_len has its floor (`cfg.floor = some 0`: after
+FFh, 16 … 1 have been refused the loop raises RetryError), and under any fault set with at most
+`full` (16) answers CAh where it has none (the pinned source - its 17th CAh leads to zero-length
+reads on which it spins: C13:get_sel_entry:unbounded-after-CAh): the error carries an injected code,
+or is RetryError, or the entry is the stored one. -/
 theorem sel_entry_multi_safe {β : Type} (cfg : SelCfg) (mk : Nat → Nat → Req) (nextOf : Rsp → Nat)
     (pay : Rsp → List Nat) (fin : List Nat → Nat → Res β) (base : Req → Rsp) (rec : List Nat) (nx : Nat)
     (hw : cfg.Wf) (hdev : SelStorage cfg mk nextOf pay base rec nx) (hpos : 1 ≤ cfg.recLen)
     (fuel : Nat) (hf : cfg.recLen + cfg.full + 1 ≤ fuel) :
-    MultiSafeOn (Few cfg.shrink cfg.full) base (getSelEntry cfg mk nextOf pay fin fuel) :=
+    MultiSafeOn (SelFaults cfg) base (getSelEntry cfg mk nextOf pay fin fuel) :=
   selEntry_ms cfg mk nextOf pay fin base rec nx hw hdev hpos fuel hf
 
 theorem sel_entry_fault_safe {β : Type} (cfg : SelCfg) (mk : Nat → Nat → Req) (nextOf : Rsp → Nat)
@@ -414,7 +420,7 @@ theorem sel_entry_fault_safe {β : Type} (cfg : SelCfg) (mk : Nat → Nat → Re
     (hfull : 1 ≤ cfg.full) (fuel : Nat) (hf : cfg.recLen + cfg.full + 1 ≤ fuel) :
     FaultSafe base (getSelEntry cfg mk nextOf pay fin fuel) :=
   ms_single _ base _ (selEntry_ms cfg mk nextOf pay fin base rec nx hw hdev hpos fuel hf)
-    (fun k c => few_single _ _ k c hfull)
+    (fun k c => Or.inr (few_single _ _ k c hfull))
 
 /-- The listing loop `while True: x = entry(id); yield x; if next == END: break; id = next`
 over any entry operation that is safe on the ids the fault-free listing visits: the listing
@@ -453,35 +459,38 @@ theorem sdr_entries_multi_safe {β : Type} (Φ : (Nat → Option Nat) → Prop) 
     MultiSafeOn Φ base (sdrEntries reserve entry nextOf first last fuel) :=
   sdrEntries_ms nextOf last base Φ Known reserve entry first fuel res hreserve hres hentry hnext hfirst
 
-/-- get_and_clear_sel_entry under any fault set whose faults lie below position N (every finite
-fault set has such an N), the loop being given more rounds than that: the error carries an
-injected code, or the entry is returned -- after the restarts C5h asks for.  A stale entry is
-never returned: what comes back is the fault-free `e`. -/
+/-- get_and_clear_sel_entry under ANY fault set where the loop runs on a retry budget (`exh =
+.retryError`: the source as it is now), and under any fault set whose faults lie below position N,
+the loop being given more rounds than that, where it is the pinned `while True`: the error carries
+an injected code, or is RetryError (budget used up), or the entry is returned -- after the restarts
+C5h asks for.  A stale entry is never returned: what comes back is the fault-free `e`. -/
 theorem get_and_clear_multi_safe {β : Type} (Φ : (Nat → Option Nat) → Prop) (cancel : Nat)
-    (reserve : Prog Nat) (entry : Nat → Prog β) (del : Nat → Req) (base : Req → Rsp) (res : Nat) (e : β)
+    (reserve : Prog Nat) (entry : Nat → Prog β) (del : Nat → Req) (exh : Err) (base : Req → Rsp) (res : Nat) (e : β)
     (hreserve : MultiSafeOn Φ base reserve)
     (hres : ∀ n, outcome reserve (pureDev base) n = .ok res)
     (hadv : ∀ φ n, n < final reserve (faultsDev base φ) n)
     (hsafe : MultiSafeOn Φ base (entry res))
     (hentry : ∀ n, outcome (entry res) (pureDev base) n = .ok e)
-    (hdel : (base (del res)).cc = 0) (N fuel : Nat) (hf : N + 1 ≤ fuel) :
-    MultiSafeOn (fun φ => Φ φ ∧ Below N φ) base (getAndClear cancel reserve entry del fuel) :=
-  getAndClear_ms cancel reserve entry del base Φ res e hreserve hres hadv hsafe hentry hdel N fuel hf
+    (hdel : (base (del res)).cc = 0) (N fuel : Nat) :
+    MultiSafeOn (GacFaults Φ exh N fuel) base (getAndClear cancel reserve entry del exh fuel) :=
+  getAndClear_ms cancel reserve entry del exh base Φ res e hreserve hres hadv hsafe hentry hdel N fuel
 
-/-- One fault, whatever its position `k`: more than `k + 2` rounds are never needed. -/
+/-- One fault, whatever its position `k`: more than `k + 2` rounds are never needed (and with a retry
+budget the number of rounds does not matter). -/
 theorem get_and_clear_fault_safe {β : Type} (Φ : (Nat → Option Nat) → Prop) (cancel : Nat)
-    (reserve : Prog Nat) (entry : Nat → Prog β) (del : Nat → Req) (base : Req → Rsp) (res : Nat) (e : β)
+    (reserve : Prog Nat) (entry : Nat → Prog β) (del : Nat → Req) (exh : Err) (base : Req → Rsp) (res : Nat) (e : β)
     (hΦ : ∀ k c, Φ (single k c))
     (hreserve : MultiSafeOn Φ base reserve)
     (hres : ∀ n, outcome reserve (pureDev base) n = .ok res)
     (hadv : ∀ φ n, n < final reserve (faultsDev base φ) n)
     (hsafe : MultiSafeOn Φ base (entry res))
     (hentry : ∀ n, outcome (entry res) (pureDev base) n = .ok e)
-    (hdel : (base (del res)).cc = 0) (n k c fuel : Nat) (hc : c ≠ 0) (hf : k + 2 ≤ fuel) :
-    Safe c (outcome (getAndClear cancel reserve entry del fuel) (pureDev base) n)
-      (outcome (getAndClear cancel reserve entry del fuel) (faultDev base k c) n) := by
-  have h := getAndClear_ms cancel reserve entry del base Φ res e hreserve hres hadv hsafe hentry hdel
-    (k + 1) fuel (by omega) (single k c) (nonZero_single k c hc) ⟨hΦ k c, below_single k c⟩ n
+    (hdel : (base (del res)).cc = 0) (n k c fuel : Nat) (hc : c ≠ 0) (hf : exh = .retryError ∨ k + 2 ≤ fuel) :
+    Safe c (outcome (getAndClear cancel reserve entry del exh fuel) (pureDev base) n)
+      (outcome (getAndClear cancel reserve entry del exh fuel) (faultDev base k c) n) := by
+  have h := getAndClear_ms cancel reserve entry del exh base Φ res e hreserve hres hadv hsafe hentry hdel
+    (k + 1) fuel (single k c) (nonZero_single k c hc)
+    ⟨hΦ k c, hf.elim Or.inl (fun h => Or.inr ⟨below_single k c, by omega⟩)⟩ n
   rw [faultsDev_single] at h
   rcases h with ⟨c', hc', e'⟩ | e' | e' | e'
   · rw [inj_single k c c' hc'] at e'; exact Or.inl e'
@@ -571,21 +580,24 @@ theorem sdr_record_fault_safe (cfg : SdrCfg) (cs : ChunkCodes)
 on the scripted device, with the constants generated from the source -/
 
 /-- The generated constants of get_sel_entry satisfy what the proofs need. -/
-theorem sel_cfg_wf : selCfg.Wf := ⟨rfl, by decide, by decide, by decide⟩
+theorem sel_cfg_wf : selCfg.Wf := ⟨rfl, by decide, by decide, by decide, by decide, by decide⟩
 
 /-- Sel.get_sel_entry for a record the device holds. -/
 theorem script_get_sel_entry_multi_safe (s : Script) (res rid nx : Nat) (rec : List Nat)
     (h : lookupRec s.sel rid = some (nx, rec)) (hlen : rec.length = 16) :
-    MultiSafeOn (Few 0xCA 16) s.base (opGetSelEntry selCfg res rid) :=
+    MultiSafeOn (SelFaults selCfg) s.base (opGetSelEntry selCfg res rid) :=
   selEntry_ms selCfg _ rspNext rspPay finSel s.base rec nx sel_cfg_wf
     (script_selStorage s selCfg res rid nx rec h hlen (by decide)) (by decide) selFuel (by decide)
 
-/-- Sel.get_and_clear_sel_entry for a well-formed record the device holds: any fault set
-with at most 16 answers CAh whose faults lie below position N, more than N rounds. -/
+/-- Sel.get_and_clear_sel_entry for a well-formed record the device holds: ANY fault set where the
+source has the floor of max_req_len and the retry budget (`SelFaults`, `GacFaults` with
+`gacExhaust sel_budget = .retryError`); on the pinned source: at most 16 answers CAh, faults below
+position N, more than N rounds. -/
 theorem script_get_and_clear_multi_safe (s : Script) (rid nx : Nat) (rec : List Nat)
     (h : lookupRec s.sel rid = some (nx, rec)) (hlen : rec.length = 16)
-    (hfin : finSel rec nx = .ok (rec, nx)) (N fuel : Nat) (hf : N + 1 ≤ fuel) :
-    MultiSafeOn (fun φ => Few 0xCA 16 φ ∧ Below N φ) s.base (opGetAndClear selCfg sel_cancel fuel rid) := by
+    (hfin : finSel rec nx = .ok (rec, nx)) (N fuel : Nat) :
+    MultiSafeOn (GacFaults (SelFaults selCfg) (gacExhaust sel_budget) N fuel) s.base
+      (opGetAndClear selCfg sel_cancel sel_budget fuel rid) := by
   have hst := script_selStorage s selCfg s.resId rid nx rec h hlen (by decide)
   have hexact : ∀ n, outcome (opGetSelEntry selCfg s.resId rid) (pureDev s.base) n = .ok (rec, nx) := by
     intro n
@@ -593,12 +605,12 @@ theorem script_get_and_clear_multi_safe (s : Script) (rid nx : Nat) (rec : List 
     rw [selEntry_exact selCfg _ rspNext rspPay finSel s.base rec nx sel_cfg_wf hst selFuel
       selCfg.entire [] n (by decide) (by simp) (by decide) (by decide), hfin]
   unfold opGetAndClear
-  exact getAndClear_ms sel_cancel _ _ _ s.base (Few 0xCA 16) s.resId rec
+  exact getAndClear_ms sel_cancel _ _ _ _ s.base (SelFaults selCfg) s.resId rec
     (reserveOp_ms _ s.base _) (script_reserve_sel s) (reserveOp_adv s.base _)
     (ms_bind _ s.base _ _ (script_get_sel_entry_multi_safe s s.resId rid nx rec h hlen)
       (fun _ _ => ms_done _ s.base _))
     (fun n => by rw [outcome_bind_ok (hexact n)]; rfl)
-    (by simp [Script.base, cDelSel, cGetSdr, cGetSel, cSelInfo, cReserveSel, cReserveSdr]) N fuel hf
+    (by simp [Script.base, cDelSel, cGetSdr, cGetSel, cSelInfo, cReserveSel, cReserveSdr]) N fuel
 
 /-- Sel.sel_entries / get_sel_entries on a log whose records are 16 bytes long and whose
 next-record ids stay inside the log. -/
@@ -607,7 +619,7 @@ theorem script_sel_entries_multi_safe (s : Script) (fuel : Nat)
     (hclosed : ∀ rid nx rec, lookupRec s.sel rid = some (nx, rec) → nx ≠ sel_last →
       (lookupRec s.sel nx).isSome)
     (hfirst : (lookupRec s.sel sel_first).isSome) :
-    MultiSafeOn (Few 0xCA 16) s.base (opSelEntries selCfg sel_first sel_last fuel) := by
+    MultiSafeOn (SelFaults selCfg) s.base (opSelEntries selCfg sel_first sel_last fuel) := by
   unfold opSelEntries
   refine selEntries_ms _ sel_last s.base _ (fun rid => (lookupRec s.sel rid).isSome) _ _ _ _ _ fuel s.resId
     (reserveOp_ms _ s.base _) (fun n r hr => by rw [script_reserve_sel s n] at hr; cases hr; rfl)
@@ -729,7 +741,7 @@ theorem cover_census :
 /-- The constants of the SEL / SDR transfer loops, as the source has them now, are the ones
 the models were written for, and they satisfy what the proofs need. -/
 theorem loop_constants_pinned :
-    selCfg = ⟨0xFF, 16, 16, 1, 0xCA⟩ ∧ selCfg.Wf ∧ sel_cancel = 0xC5 ∧ sel_first = 0 ∧ sel_last = 0xFFFF ∧
+    (selCfg.entire, selCfg.full, selCfg.recLen, selCfg.step, selCfg.shrink) = (0xFF, 16, 16, 1, 0xCA) ∧ selCfg.Wf ∧ sel_cancel = 0xC5 ∧ sel_first = 0 ∧ sel_last = 0xFFFF ∧
     sdrCfg = ⟨5, 20, 4, 20, 0xCA⟩ ∧ sdr_chunkCodes = ⟨0xC5, 0xC3, 0xCE⟩ ∧ sdr_chunkRetry = 5 ∧ clear_retry = 5 ∧ sdr_first = 0 ∧
     sdr_last = 0xFFFF ∧
     codes_selBackoff = [selCfg.shrink] ∧ codes_restartOnCancel = [sel_cancel] := by
@@ -890,13 +902,13 @@ example : outcome (opSelEntries selCfg sel_first sel_last 10) (faultsDev demoScr
 example : outcome (opSelEntries selCfg sel_first sel_last 10) (faultsDev demoScript.base (single 3 0xCA)) 0 =
     .ok [(demoSel1, 2), (demoSel2, 0xFFFF)] := by decide
 -- get_and_clear_sel_entry: C5h on the read, then C5h on the delete: two restarts, the entry
-example : outcome (opGetAndClear selCfg sel_cancel 8 1)
+example : outcome (opGetAndClear selCfg sel_cancel sel_budget 8 1)
     (faultsDev demoScript.base (fun n => if n = 1 ∨ n = 4 then some 0xC5 else none)) 0 = .ok demoSel1 := by decide
-example : trace (opGetAndClear selCfg sel_cancel 8 1)
+example : trace (opGetAndClear selCfg sel_cancel sel_budget 8 1)
     (faultsDev demoScript.base (fun n => if n = 1 then some 0xC5 else none)) 0 =
     [⟨cReserveSel, []⟩, mkGet cGetSel 0x1b0b 1 0 0xFF, ⟨cReserveSel, []⟩, mkGet cGetSel 0x1b0b 1 0 0xFF,
      ⟨cDelSel, [0x1b0b, 1]⟩] := by decide
-example : outcome (opGetAndClear selCfg sel_cancel 8 1) (faultsDev demoScript.base (single 2 0xD4)) 0 =
+example : outcome (opGetAndClear selCfg sel_cancel sel_budget 8 1) (faultsDev demoScript.base (single 2 0xD4)) 0 =
     .error (.ccError 0xD4) := by decide
 -- get_repository_sdr: CAh on the second data read -> 16-byte reads, the same record
 example : sdrHeader (demoSdr2.take sdrCfg.hdrLen) = .ok (2, demoSdr2.length) := by decide
